@@ -405,12 +405,18 @@ class Program:
         self.src_root = src_root      # /repo/<crate>
         self.functions = {}           # name -> Function (first definition wins; duplicates kept in self.dups)
         self.by_last = {}             # last path segment (method name) -> [Function]
+        self.promoted = {}            # '<fn name>::promoted[N]' -> Function (constant body)
         self._scan(text)
         self._impl_headers = {}
 
     def _scan(self, text):
         lines = text.split('\n')
         i, n = 0, len(lines)
+        self.literal_consts = {}
+        for line in lines:
+            ml = re.match(r'^const ([\w:{}#]+): ([^=]+) = const (.*);$', line)
+            if ml:
+                self.literal_consts.setdefault(ml.group(1), []).append(ml.group(3))
         while i < n:
             line = lines[i]
             if line.startswith('fn ') or line.startswith('const ') or line.startswith('static ') or line.startswith('promoted['):
@@ -419,6 +425,11 @@ class Program:
                 j = i + 1
                 while j < n and lines[j] != '}':
                     j += 1
+                mconst = re.match(r'^const (.*::promoted\[\d+\]): (.*) = \{$', line) or re.match(r'^const ([\w:<>{}#@ /\.\-]+): ([^=]+) = \{$', line)
+                if mconst:
+                    pf = Function(mconst.group(1), 'fn ' + mconst.group(1) + '() -> ' + mconst.group(2) + ' {', start + 1)
+                    pf.raw = ['fn ' + mconst.group(1) + '() -> ' + mconst.group(2) + ' {'] + lines[start + 1:j + 1]
+                    self.promoted[mconst.group(1)] = pf
                 if line.startswith('fn '):
                     header = line
                     name = self._fn_name(header)
